@@ -343,6 +343,7 @@ func runC16(w *World, r *Report) {
 	r.Min("R2", 8)
 	r.Min("R3", 4)
 	c16ExtraExportPaths(w, r)
+	c16MoreExportPaths(w, r)
 	r.Min("R4", 9)
 }
 
@@ -493,4 +494,55 @@ func c16ExtraExportPaths(w *World, r *Report) {
 		}
 	})
 	r.Check(len(writes) == 0 && okCfg && nCfg >= 2, "R4", "GenerateHAR/settings-of-this-call", gh.Pos(), "the obfuscation settings consulted (%d uses) are those of the diagnosis configuration passed to this call, and the plugin object is not written on the transaction path (writes: %v)", nCfg, writes)
+}
+
+// c16MoreExportPaths: (a) each direction's body is decoded with the content
+// encoding of its OWN message (a gzip response to a plain request must be
+// decompressed before its JSON is walked); (b) the production hasher digests
+// every input - there is no input it returns unhashed.
+func c16MoreExportPaths(w *World, r *Report) {
+	if gh := w.Fn(pkgHar, "harCollectorProcessor.generateHAR"); gh == nil {
+		r.Undec("R4", "generateHAR", token.NoPos, "function not found")
+	} else {
+		n, ok := 0, true
+		var why []string
+		for _, c := range CallsIn(gh, false, "har-collector.buildHARBody") {
+			n++
+			a := c.Common().Args
+			src := func(v ssa.Value) string {
+				s := ""
+				Derives(v, func(x ssa.Value) bool {
+					if cc, isC := x.(*ssa.Call); isC {
+						id := calleeID(cc)
+						if strings.HasSuffix(id, ").GetRequest") {
+							s = "request"
+						}
+						if strings.HasSuffix(id, ").GetResponse") {
+							s = "response"
+						}
+					}
+					return false
+				})
+				return s
+			}
+			b, e := src(a[0]), src(a[1])
+			if b == "" || b != e {
+				ok = false
+				why = append(why, "body of "+b+" decoded with the encoding header of "+e)
+			}
+		}
+		r.Check(ok && n == 2, "R4", "generateHAR/body-decoded-with-its-own-encoding", gh.Pos(), "each buildHARBody call takes body and content-encoding from the same message %v", why)
+	}
+	if hb := w.Fn(pkgObf, "MD5Hasher.HashBytes"); hb == nil {
+		r.Undec("R2", "MD5Hasher.HashBytes", token.NoPos, "function not found")
+	} else {
+		n, ok := 0, true
+		for _, alt := range ReturnAlts(hb, 0) {
+			n++
+			if !Derives(alt.Val, func(x ssa.Value) bool { return isCallTo0(x, "crypto/md5.Sum") }) || len(alt.Conds) != 0 {
+				ok = false
+			}
+		}
+		r.Check(ok && n == 1, "R2", "MD5Hasher.HashBytes/every-input-is-digested", hb.Pos(), "the hasher has one return, the hex digest of its input, for every input (an empty value is exported as the digest of the empty string, not in clear)")
+	}
 }
